@@ -129,14 +129,16 @@ pub fn apply_mutation(spec: &GraphSpec, m: &Mutation) -> GraphSpec {
 }
 
 /// Arbitrary builder call sequence: self edges, reversed and repeated pairs.
-pub fn decode_build_case(t: &mut Tape, x: &mut Tape, max_n: usize, cap: Option<u64>) -> BuildCase {
+pub fn decode_build_case(t: &mut Tape, x: &mut Tape, max_n: usize, cap: Option<u64>, force_n: Option<usize>) -> BuildCase {
     // one case in twenty-four is large (65..=120 functions) with sparse access
     // declarations and sparse edges: few conflicts in a big graph
-    let large = max_n >= 24 && t.chance(1, 24);
+    let large = force_n.is_some() || (max_n >= 24 && t.chance(1, 24));
     if large {
         t.enable_tail();
     }
-    let n = if large {
+    let n = if let Some(n) = force_n {
+        n
+    } else if large {
         // one large case in twelve is beyond 256 functions (counts that do not fit a byte)
         if t.chance(1, 12) {
             [255usize, 256, 257][t.below(3)] + if t.chance(1, 2) { 0 } else { t.below(44) }
@@ -1479,6 +1481,8 @@ pub struct BuildCheck {
     pub max_n: usize,
     pub cap: Option<u64>,
     pub tape_lens: [usize; 2],
+    /// Size ladder: exactly this many functions.
+    pub force_n: Option<usize>,
 }
 
 impl BuildCheck {
@@ -1488,12 +1492,13 @@ impl BuildCheck {
             max_n: if thorough { 40 } else { 32 },
             cap,
             tape_lens: if thorough { [2400, 60] } else { [2000, 60] },
+            force_n: None,
         }
     }
     pub fn decode(&self, tapes: &[Vec<u16>]) -> BuildCase {
         let mut t = Tape::new(&tapes[0]);
         let mut x = Tape::new(&tapes[1]);
-        decode_build_case(&mut t, &mut x, self.max_n, self.cap)
+        decode_build_case(&mut t, &mut x, self.max_n, self.cap, self.force_n)
     }
 }
 
@@ -1988,7 +1993,7 @@ pub fn build_histories(prop: &str, seed: u64) -> BuildHistories {
                         })
                         .collect();
                     let extra: Vec<u16> = tape.iter().rev().take(60).copied().collect();
-                    let c = decode_build_case(&mut Tape::new(&tape), &mut Tape::new(&extra), 32, None);
+                    let c = decode_build_case(&mut Tape::new(&tape), &mut Tape::new(&extra), 32, None, None);
                     // rich enough that a wrong rank or a lost edge shows: chains of >= 3 functions
                     let ue = user_edges(c.spec.n(), &c.spec.flat_calls()).edges;
                     let deep = ref_ranks(c.spec.n(), &ue).iter().copied().max().unwrap_or(0) >= 2;
